@@ -14,7 +14,7 @@ def run(rep, tier, seed, replay_file=None):
     ]
     # 1. design level: every interleaving of the implementation-shaped specs
     jobs = pc.IMPL_SMALL if quick else pc.IMPL_SMALL + pc.IMPL_FULL
-    if not pc.run_impl(rep, jobs, pc.C01_NOTE, par=3, workers=2, timeout=1500):
+    if not pc.run_impl(rep, jobs, pc.C01_NOTE, par=3, workers=2 if quick else 4, timeout=1500):
         return
     pc.run_mutations(rep, pc.MUT_C01)
 
@@ -29,12 +29,16 @@ def run(rep, tier, seed, replay_file=None):
     sim = pc.gen(rep, "Ctl_c01_sim.cfg", "random schedules n <= 8, k <= 4", simulate=dict(num=150 if quick else 2500),
                  depth=30, seed=seed)
     behs = replay.dedupe(behs + sim + free)
-    if not behs:
+    races = pc.gen(rep, "Ctl_c01_race.cfg" if quick else "Ctl_c01_race_full.cfg",
+                   "undisturbed runs whose advances are concurrent from the very first one, one configuration per construct")
+    races = [b for b in races if b["steps"][0]["op"] == "race-start"]
+    if not behs or not races:
         return
     binary = harness.build(pc.BINARY)
     env = {"GOMAXPROCS": str(1 + seed % 4)}
     replay.replay(rep, binary, ["replay"], behs, shards=6 if quick else 8, env_extra=env, label="pipeline",
                   nontrivial=pc.nontrivial, timeout=1200)
+    pc.replay_races(rep, binary, races, par=4 if quick else 6, env={"GOMAXPROCS": "8"}, label="pipeline/concurrent-start")
     held = [b for b in behs if any(s["op"] == "rel" for s in b["steps"]) and b["cfg"]["n"] >= 2]
     if held:
         rep.sample(dict(kind="replayed schedule (user functions released one by one)", behaviour=held[len(held) // 2]))
@@ -42,7 +46,7 @@ def run(rep, tier, seed, replay_file=None):
     pc.binding_self_tests(rep, binary, "C01")
     rep.cov["rule"] = (
         "behaviours = driver schedules of PipelineCtl without stop actions (one per terminal edge of the abstract graph; "
-        "thorough: all of <= Depth steps for n<=3,k<=2; random n<=8,k<=4; free-running n<=24,k<=6) for map, pp, pfe, worker, "
+        "thorough: all of <= Depth steps for n<=3,k<=2; random n<=8,k<=4; free-running n<=24,k<=6; RaceReps repetitions per construct of a run whose first advances are concurrent) for map, pp, pfe, worker, "
         "pbuf, split, buffer, merge, gen, multiread; after every step the real construct runs to quiescence and the "
         "observations are compared with the spec's allowed sets: every user-function call is for an input item not seen "
         "before, every output is f(input item) not output before and allowed (may), the end of an output only when "
